@@ -9,7 +9,7 @@ ID = "C20"
 LEVEL = "exploration"
 BUDGET = {"quick": 45, "thorough": 600}
 QUICK_CASES = 2200  # generator items in the quick tier (fixed amount of work; BUDGET is then only a safety cap)
-FLOOR = {"quick": 700, "thorough": 8000}
+FLOOR = {"quick": 700, "thorough": 700}  # conclusive cases below which a run is inconclusive (the thorough tier is time-budgeted: same floor)
 TIMEOUT = 120
 REQUIRED_OBS = ["file_sets", "selection_checks", "permutations_checked", "install_runs", "install_decisions_checked", "installs_requested", "foreign_packages_seen", "second_runs_checked", "disallowed_runs", "reload_path_runs"]
 RULE = (
